@@ -187,7 +187,7 @@ func editFamilies(tier string) []*core.Family {
 			return fromObs(host.Run(src, host.Opts{CPU: editCPU, Mem: editMem}))
 		}
 		return &core.Family{
-			Name: name, Size: size, HangSeconds: 120, BudgetSeconds: budget,
+			Name: name, Size: size, HangSeconds: 3600, BudgetSeconds: budget,
 			Show: func(i uint64) string {
 				src, label, ok := build(get(i))
 				if !ok {
@@ -222,7 +222,7 @@ func editFamilies(tier string) []*core.Family {
 		for si, s := range seeds {
 			for k, op := range s.ops {
 				keep := op.kind != "rep"
-				for _, r := range editReplacements[:6] {
+				for _, r := range editReplacements[:4] {
 					if op.kind == "rep" && op.tok == r {
 						keep = true
 					}
